@@ -11,6 +11,8 @@
   driver evaluates on the implementation's observations.
 -/
 import Upnp.Lemmas.C14Ctl
+import Upnp.Lemmas.C14Call
+import Upnp.Lemmas.C14Desc
 namespace Upnp.C14
 open Upnp PyDict
 
@@ -94,5 +96,94 @@ theorem handler_error_default (fs : Facts) (stype : Str) (acts : List SAct) (h :
   obtain ⟨act, _, _, _, hs⟩ := serverHandle_reached (stype := stype) (h := h) hi
   rw [hs, he]
   exact clientDecode_fault fs stype cact 501
+
+
+/-! ### valid calls -/
+
+/-- **Every action invoked through the client model with valid arguments reaches the handler with
+    the same typed values and returns the handler's typed results to the caller.**
+
+    For every service type and action name free of `#` and `"`, every action whose in-argument names
+    are distinct, every argument assignment `args` that supplies each in-argument with a value that
+    passes the variable's schema and survives its codec (`ArgsOk`; the codec round trip is
+    `pyInt_decOfInt` for the integer types, trivial for strings and booleans, an assumption recorded
+    in the facts for float / date / time), and every handler result `vals` of out-arguments with
+    valid values (`ValsOk`):
+    * the request written by `create_request` is accepted by `_parse_action_body`, passes
+      `validate_arguments`, and the handler is called with a dictionary holding exactly the caller's
+      value for each in-argument;
+    * the response written by `_create_action_response` is decoded by `parse_response` into exactly
+      the handler's dictionary. -/
+theorem call_roundtrip (fs : Facts) (stype : Str) (acts : List SAct) (act : SAct) (h : Handler)
+    (args vals : List (Str × Val))
+    (h1 : '#' ∉ stype) (h2 : '"' ∉ stype) (h3 : '#' ∉ act.name) (h4 : '"' ∉ act.name)
+    (hfind : acts.find? (fun a => a.name = act.name) = some act)
+    (hnd : (act.ins.map (·.name)).Nodup) (hok : ArgsOk fs args act.ins)
+    (hh : h act.name (kwOf args act) = .ret vals) (hv : ValsOk fs act vals) :
+    handlerInput fs acts (reqOf stype act args) = some (act.name, kwOf args act)
+    ∧ (∀ a ∈ act.ins, get? (kwOf args act) a.name = get? args a.name)
+    ∧ (∀ k, k ∉ act.ins.map (·.name) → get? (kwOf args act) k = none)
+    ∧ clientCall fs stype act (serverHandle fs stype acts h) args = .ok (PyDict.ofList vals) := by
+  obtain ⟨hc, hp, hi⟩ := request_reaches_handler (acts := acts) h1 h2 h3 h4 hfind hnd hok
+  refine ⟨hi, ?_, ?_, ?_⟩
+  · intro a ha
+    obtain ⟨v, hv', _, _⟩ := hok a ha
+    rw [get?_kwOf hnd ha, hv']; simp [argVal, hv']
+  · intro k hk
+    rw [get?_eq_none_iff]
+    unfold kwOf
+    rw [mem_keys_ofList]
+    simpa [List.map_map, Function.comp_def] using hk
+  · obtain ⟨act', _, _, hp', hs⟩ := serverHandle_reached (stype := stype) (h := h) hi
+    rw [hp] at hp'
+    cases hp'
+    unfold clientCall
+    rw [hc]
+    simp only
+    rw [hs, hh]
+    simp only [responseKids_ok hv]
+    exact response_reaches_caller hv
+
+/-- non-vacuity of `call_roundtrip`: a `ui2` argument restricted to 1..10 and a string argument,
+    an `i4` and a string result; the hypotheses hold and the call returns the handler's values -/
+example :
+    let vA : VarDef := ⟨"VarA".toList, "ui2".toList, false, some "1".toList, some "10".toList, none, none⟩
+    let vS : VarDef := ⟨"VarS".toList, "string".toList, false, none, none, some ["a".toList, "b<&>".toList], none⟩
+    let vE : VarDef := ⟨"VarE".toList, "i4".toList, true, none, none, none, some "5".toList⟩
+    let act : SAct := ⟨"Act".toList, [⟨"A".toList, vA⟩, ⟨"S".toList, vS⟩], [⟨"R".toList, vE⟩, ⟨"S2".toList, vS⟩]⟩
+    let args : List (Str × Val) := [("S".toList, .str "b<&>".toList), ("A".toList, .int 5)]
+    let vals : List (Str × Val) := [("R".toList, .int (-7)), ("S2".toList, .str "a".toList)]
+    let stype := "urn:schemas-upnp-org:service:S0:1".toList
+    clientCall [] stype act (serverHandle [] stype [act] (fun _ _ => .ret vals)) args = .ok vals
+    ∧ handlerInput [] [act] (reqOf stype act args)
+        = some ("Act".toList, [("A".toList, .int 5), ("S".toList, .str "b<&>".toList)])
+    ∧ clientCall [] stype act (serverHandle [] stype [act] (fun _ _ => .err (some 714))) args
+        = .actionError (some 714) (some 500) := by
+  decide +kernel
+
+/-! ### description -/
+
+/-- **The served description of a state variable is parsed by the client into a model equal to the
+    definition** (`varMatches`: same name, data type and evented flag; typed minimum, maximum —
+    each possibly absent, one-sided ranges included — and default equal; allowed values equal as a
+    set of typed values), for every well-formed definition (`VarWF`: blank-free name, supported type,
+    texts that coerce to values which survive `str()` and the type's `in` coercer — automatic for the
+    integer, string and boolean families, see `rtok_modelled`). -/
+theorem client_sees_variable (fs : Facts) (vd : VarDef) (h : VarWF fs vd) :
+    parseVar (serializeVar fs vd) = some (clientVarOf fs vd)
+    ∧ varMatches fs vd (viewOf fs (clientVarOf fs vd)) = true :=
+  ⟨parseVar_serializeVar fs vd h.name_ok h.fam_ok, var_roundtrip h⟩
+
+/-- non-vacuity of `client_sees_variable`: an evented `i4` with only a minimum and a default, and a
+    boolean with an allowed list written in several spellings -/
+example :
+    let v1 : VarDef := ⟨"Volume".toList, "i4".toList, true, some " 07 ".toList, none, none, some "+9".toList⟩
+    let v2 : VarDef := ⟨"Mute".toList, "boolean".toList, false, none, none, some ["YES".toList, "1".toList], some "true".toList⟩
+    (parseVar (serializeVar [] v1)).map (fun c => (c.evented, c.min, c.max, c.default))
+        = some (true, some "7".toList, none, some "9".toList)
+    ∧ varMatches [] v1 (viewOf [] (clientVarOf [] v1)) = true
+    ∧ (parseVar (serializeVar [] v2)).map (·.allowed) = some (some ["True".toList])
+    ∧ varMatches [] v2 (viewOf [] (clientVarOf [] v2)) = true := by
+  decide +kernel
 
 end Upnp.C14
